@@ -759,6 +759,32 @@ def run(chk):
                 chk.instance(r_ao, key, sample=dict(function=f["q"], access=show(n)[:80]))
                 chk.violation(r_ao, key, "%s picks a record by position (`%s`); only the last record (back()) stands for the history" % (f["q"], show(n)[:80]), f["file"], n["l"])
 
+    # ---- C17.finite: only finite numbers are defined values
+    r_fi = chk.rule("C17.finite", "UDQScalar::assign(double) - the one place where every arithmetic result is stored - keeps the number exactly when std::isfinite(value) holds and makes the element undefined otherwise (x / 0, overflow and NaN all give an undefined element, which then propagates as undefined through the documented rules); the optional overload forwards a present value to it and stores 'undefined' for an absent one", floor=2)
+    sx17 = chk.facts([SET])
+    asg17 = [f for f in sx17.fns if f["q"] == "Opm::UDQScalar::assign" and f.get("body") and len(f["params"]) == 1]
+    a_d = [f for f in asg17 if "optional" not in (f["params"][0].get("t") or "")]
+    a_o = [f for f in asg17 if "optional" in (f["params"][0].get("t") or "")]
+    if len(a_d) != 1 or len(a_o) != 1:
+        raise core.AnalysisBroken("UDQScalar::assign: %d double / %d optional overloads" % (len(a_d), len(a_o)))
+    for f, cond_want, then_want in ((a_d[0], ("std::isfinite(%s)", "isfinite(%s)"), "(this.m_value = %s)"), (a_o[0], ("%s.has_value()", "%s.operator bool()"), "this.assign((*%s))")):
+        pn_ = f["params"][0]["n"]
+        st_ = stmt_list(f["body"])
+        okf = False
+        det_ = [show(x)[:120] for x in st_]
+        if len(st_) == 1 and st_[0]["k"] == "If" and st_[0].get("else") is not None:
+            c_ = show(strip(st_[0]["cond"]))
+            unw_ = lambda t_: re.sub(r"std::optional<double>\{(\w+)\}", r"\1", t_)
+            th_ = [unw_(show(x)) for x in stmt_list(st_[0]["then"])]
+            el_ = [unw_(show(x)) for x in stmt_list(st_[0]["else"])]
+            okf = c_ in [w_ % pn_ for w_ in cond_want] and th_ == [then_want % pn_] and el_ in (["(this.m_value = std::nullopt)"], ["this.m_value.reset()"])
+            if not okf and c_ in ["(!%s)" % (w_ % pn_) for w_ in cond_want]:
+                okf = el_ == [then_want % pn_] and th_ in (["(this.m_value = std::nullopt)"], ["this.m_value.reset()"])
+        key = "assign(%s)" % ("optional" if f is a_o[0] else "double")
+        chk.instance(r_fi, key, sample=dict(body=det_))
+        if not okf:
+            chk.violation(r_fi, key, "UDQScalar::%s must store the number exactly under %s and 'undefined' otherwise (found %s): infinities from x / 0 or overflow would become defined values of the set" % (key, cond_want[0] % pn_, det_), f["file"], f["l"])
+
     # ---- C17.pending: an ASSIGN is applied once
     r_pe = chk.rule("C17.pending", "UDQConfig keeps the quantities ASSIGNed since the last evaluation in a pending list: add_assign appends the quantity (under the test that the assignment exists), eval_assign(context) TAKES the list - after it the member is empty on every path that applies assignments (swap with a local declared empty, std::exchange with {}, or an unconditional clear()) - and applies the entries of the local it took; clear_pending_assignments clears it.  A list that is only copied is re-applied by every later evaluation of the same configuration and overwrites what DEFINE computed in between", floor=4)
     cfx = chk.facts(["opm/input/eclipse/Schedule/UDQ/UDQConfig.cpp"])
